@@ -66,7 +66,8 @@ pub fn run(ctx: &Ctx) -> bool {
         "C14" => c14::run(ctx),
         "C15" => {
             c15::run(ctx);
-            c15::run_pools(ctx)
+            c15::run_pools(ctx);
+            c15::run_api(ctx)
         }
         "C16" => c16::run(ctx),
         "C17" => {
